@@ -2,7 +2,8 @@
 
 // Driver for C31 (see /verif/DESIGN.md, /verif/spec/IndexerWindow.tla): feeds the real Indexer (pebble on disk,
 // under VERIF_OUT) seeded histories of accepted-block notifications - consecutive, with height gaps, the latest
-// block again - and restarts (Close + NewIndexer on the same directory), and after every call asks every query
+// block again - restarts (Close + NewIndexer on the same directory) and crashes (an indexer opened on a copy of the
+// live directory taken without Close), and after every call asks every query
 // over the whole universe of heights / block ids / transaction ids.  One ndjson line per call;
 // spec/Indexer_Trace.tla decides.
 package indexer_test
@@ -12,6 +13,8 @@ import (
 	"context"
 	"encoding/json"
 	"fmt"
+	"io"
+	"io/fs"
 	"math/rand"
 	"os"
 	"path/filepath"
@@ -123,6 +126,67 @@ func (h *idxHarness) restart() {
 	h.answers(map[string]any{"ev": "restart"})
 }
 
+// copyDir copies the live pebble directory file by file (the indexer stays open: this is what a kill leaves behind;
+// every commit of the indexer's database is synchronous, and no call is in flight while we copy).
+func copyDir(src, dst string) error {
+	return filepath.WalkDir(src, func(path string, d fs.DirEntry, err error) error {
+		if err != nil {
+			return err
+		}
+		rel, err := filepath.Rel(src, path)
+		if err != nil {
+			return err
+		}
+		target := filepath.Join(dst, rel)
+		if d.IsDir() {
+			return os.MkdirAll(target, 0o755)
+		}
+		in, err := os.Open(path)
+		if err != nil {
+			return err
+		}
+		defer in.Close()
+		out, err := os.Create(target)
+		if err != nil {
+			return err
+		}
+		defer out.Close()
+		_, err = io.Copy(out, in)
+		return err
+	})
+}
+
+// crash: the process dies without Close after the last acknowledged call.  An indexer opened on a copy of the live
+// directory plays the restarted process; its answers are logged, the live indexer carries on untouched.
+// pebble's background work (flush after a WAL replay, obsolete file deletion) can race with the copy; a copy that
+// cannot be taken or opened is retried and finally given up as a harness problem, never reported as a verdict.
+func (h *idxHarness) crash() {
+	var lastErr error
+	for attempt := 0; attempt < 4; attempt++ {
+		dst := fmt.Sprintf("%s-crash%d", h.dir, attempt)
+		_ = os.RemoveAll(dst)
+		if err := copyDir(h.dir, dst); err != nil {
+			lastErr = err
+			_ = os.RemoveAll(dst)
+			continue
+		}
+		re, err := indexer.NewIndexer(dst, chaintest.NewTestParser(), uint64(h.w))
+		if err != nil {
+			lastErr = err
+			_ = os.RemoveAll(dst)
+			continue
+		}
+		live := h.idx
+		h.idx = re
+		h.answers(map[string]any{"ev": "crash"})
+		h.idx = live
+		_ = re.Close()
+		_ = os.RemoveAll(dst)
+		return
+	}
+	h.t.Fatalf("VERIF_INFRA cannot take / open a copy of the live directory: %v", lastErr)
+}
+
 func idxEnvInt(name string, def int) int {
 	if v, err := strconv.Atoi(os.Getenv(name)); err == nil {
 		return v
@@ -166,10 +230,16 @@ func TestVerifIndexerRecord(t *testing.T) {
 		h.lines = append(h.lines, map[string]any{"ev": "reset", "w": w, "H": nBlocks, "ntx": ntx})
 		gapRate := []int{0, 2, 4}[s%3] // a third of the histories has no gaps at all
 		cur := 0
+		crashes := 0
 		for i := 0; i < depth; i++ {
+			// crash point right after an acknowledged Notify (a handful per history: pebble opens dominate the cost)
+			if n := len(h.lines); crashes < 3 && h.lines[n-1]["ev"] == "notify" && r.Intn(5) == 0 {
+				crashes++
+				h.crash()
+			}
 			x := r.Intn(20)
 			switch {
-			case x < 4:
+			case x < 2:
 				h.restart()
 			case x < 6 && cur > 0:
 				h.notify(cur) // the latest block is delivered again
@@ -186,6 +256,11 @@ func TestVerifIndexerRecord(t *testing.T) {
 			default:
 				h.restart()
 			}
+		}
+		if cur < nBlocks { // every history ends with a kill right after a Notify, then two clean restarts of the live one
+			cur++
+			h.notify(cur)
+			h.crash()
 		}
 		h.restart()
 		h.restart()
